@@ -8,9 +8,12 @@ CHECKS = {
         'level': 'proof',
         'technique': 'deductive verification: loop-invariant VCs from the real source discharged by z3/cvc5 (+ bounded run-time contract for the unproved helpers)',
         'text': ('levenshtein_distance, levenshtein_alignment, levenshtein_alignment_path and levenshtein_distance_substring are proved '
-                 'equal to the Wagner-Fischer / Sellers spec functions for all sequences and all costs >= 1 (256 obligations); '
-                 'levenshtein_alignment_substring, edit_stats_for_alignment, ErrorsSummary.from_lists/aggregate are covered by the '
-                 'exhaustive bounded run-time contract only.'),
+                 'equal to the Wagner-Fischer / Sellers spec functions for all sequences and all costs >= 1; edit_stats_for_alignment '
+                 'is proved to return the suffix-recursive counts of the alignment, ErrorsSummary.aggregate to add, and '
+                 'ErrorsSummary.from_lists (modularly, over the three callee contracts, with inductive lemmas for the symmetry of '
+                 'the unit-cost distance and cost = number of unequal pairs) to satisfy nb_subs + nb_inss + nb_dels == nb_errors == '
+                 'distance (320 obligations in all); levenshtein_alignment_substring is covered by the exhaustive bounded '
+                 'run-time contract only.'),
         'note': ('Trusted: pyvc generator and its numpy model table (A1-A5), spec functions validated against brute force on a bounded '
                  'domain, well-founded induction scheme of loop invariants; numpy object-array element equality (A5) checked at run time.'),
     },
